@@ -9,13 +9,17 @@ PROP = "C16"
 NEEDS = ["model/Graph.v", "proofs/GraphP.v", "extract/Extract.v"]
 
 
+MODEPOOL = [0, 1, 2, 10, 3, 11, 23, 12, 100, 7, 101]      # one-, two- and three-digit mode / register numbers
+
+
 def gen_program(rng, maxlen=40, maxmode=8):
     n = rng.randint(0, maxlen) if rng.random() < 0.9 else rng.randint(0, 4)
     nm = rng.randint(1, maxmode)
+    pool = MODEPOOL if rng.random() < 0.6 else list(range(len(MODEPOOL)))
     lines = ["name g", "version 1.0", ""]
     for i in range(n):
         k = rng.choice([1, 1, 1, 2, 2, 3])
-        modes = [rng.randrange(nm) for _ in range(k)]
+        modes = [pool[rng.randrange(nm)] for _ in range(k)]
         if rng.random() < 0.7:
             modes = list(dict.fromkeys(modes))
         args = []
@@ -25,13 +29,13 @@ def gen_program(rng, maxlen=40, maxmode=8):
         else:
             for _ in range(rng.randint(0, 2)):
                 if rng.random() < 0.35:
-                    regs = rng.sample(range(nm + 2), rng.randint(1, 2))
+                    regs = [pool[x] for x in rng.sample(range(nm + 2), rng.randint(1, 2))]
                     args.append(" + ".join("q%d * %d" % (q, rng.randint(1, 3)) for q in regs))
                 else:
                     args.append(rng.choice(["0.5", "1", "2.5e-1", "pi"]))
             if rng.random() < 0.3:
                 if rng.random() < 0.5:
-                    args.append("phi=q%d / 2" % rng.randrange(nm + 2))
+                    args.append("phi=q%d / 2" % pool[rng.randrange(nm + 2)])
                 else:
                     args.append("phi=%s" % rng.choice(["0.1", "[1, 2]"]))
             argtext = "(" + ", ".join(args) + ")"
@@ -53,6 +57,18 @@ def wires_of(op):
     return [int(x) for x in w]
 
 
+def wires_from_text(text):
+    """modes and measured registers of every statement, read off the script itself (one statement per line)"""
+    import re
+    out = []
+    for ln in text.split("\n"):
+        if " | " not in ln:
+            continue
+        left, right = ln.rsplit(" | ", 1)
+        out.append([int(x) for x in re.findall(r"\d+", right)] + [int(x) for x in re.findall(r"\bq(\d+)\b", left)])
+    return out
+
+
 def check_graph(model, impl, text):
     """-> message or None"""
     import copy
@@ -61,7 +77,12 @@ def check_graph(model, impl, text):
     from blackbird.utils import to_DiGraph
     p = impl.loads(text)
     ops = copy.deepcopy(p.operations)
-    wires = [wires_of(o) for o in p.operations]
+    wires = wires_from_text(text)
+    if len(wires) != len(p.operations):
+        return "harness: %d statements, %d operations" % (len(wires), len(p.operations))
+    for i, o in enumerate(p.operations):
+        if sorted(set(wires_of(o))) != sorted(set(wires[i])):
+            return "operation %d acts on modes / depends on registers %s, the script says %s" % (i, sorted(set(wires_of(o))), sorted(set(wires[i])))
     out = model.ask("DIGRAPH", ";".join(",".join(map(str, w)) for w in wires))
     _, ns, _, es = (out.split(" ") + ["", ""])[:4] if out.startswith("N") else (None, None, None, None)
     mnodes = set(int(x) for x in ns.split(",") if x)
@@ -107,7 +128,7 @@ def topo_pred(impl, text, rng):
     import networkx as nx
     from blackbird.utils import to_DiGraph
     p = impl.loads(text)
-    wires = [wires_of(o) for o in p.operations]
+    wires = wires_from_text(text)
     G = to_DiGraph(p)
     if not nx.is_directed_acyclic_graph(G):
         return "cycle"
